@@ -205,3 +205,61 @@ Proof.
   split; [vm_compute; reflexivity|]. split; [vm_compute; reflexivity|].
   intros [H _]. specialize (H 1 _ eq_refl). vm_compute in H. destruct H as (_ & H & _). discriminate.
 Qed.
+
+(** * a v1 contract formed AND resolved in one block *)
+
+(* buffer 2; v1 contract 1 (stored revision 1).  c_b2: its formation (created element at revision
+   1) and a storage proof in one block — connected, disconnected (everything undone, formation
+   last), connected again, rescanned, one more block, two blocks disconnected. *)
+Definition sc_b2 : block := mkB (2, 2) [1] [(1, 0, 1)] [1] [] [] [] [] [] [].
+Definition sc_demo : list item :=
+  [HBatch 0 [sb_b1]; HOp (AddV1 1 1 10 1 (mkU 1 2 3 4 5 6 0 7));
+   HBatch 0 [sc_b2]; HBatch 1 []; HBatch 0 [sc_b2]; HRescan; HBatch 0 [mkB (3, 3) [] [] [] [] [] [] [] [] []];
+   HBatch 2 []].
+
+Lemma sc_demo_ok :
+  wf_hist 2 sc_demo (init, []) /\
+  sb_cols (firstn 3 sc_demo) = Some ([(Successful, true, 1, true, Some 2)], [], 2%nat) /\
+  sb_cols (firstn 4 sc_demo) = Some ([(Pending, false, 0, false, None)], [], 1%nat) /\
+  sb_cols (firstn 7 sc_demo) = Some ([(Successful, true, 1, true, Some 2)], [], 3%nat) /\
+  sb_cols sc_demo = Some ([(Pending, false, 0, false, None)], [], 1%nat) /\
+  block_of_diffs (2, 2) [mkFD 1 true true 1 None true true false] [] = sc_b2 /\
+  (* the metrics follow: nothing active, nothing locked after the block *)
+  match hrun 2 (firstn 3 sc_demo) (init, []) with
+  | ROk (s, _) => (nAct (mets s), nSucc (mets s), mLocked (mets s), eRpc (mets s)) = (0, 1, 0, 1)
+  | _ => False
+  end.
+Proof. split; [apply wf_histb_sound; vm_compute; reflexivity | vm_compute; repeat split; reflexivity]. Qed.
+
+Section Legacy2.
+  (* before fixes/C01-v1-created-and-resolved-same-block.patch: [case created] never looked at
+     [resolved] (and RevertContracts reverted formations first) *)
+  Definition build1_legacy2 (revert : bool) (ch : changes) (d : fdiff) : option changes :=
+    if negb (fd_relevant d) then Some ch
+    else if fd_created d then
+      Some (add_rev1 (add_conf1 ch (fd_id d)) (fd_id d, if revert then 0 else fd_cur d))
+    else build1 revert ch d.
+  Definition build_state_legacy2 (revert : bool) (l1 : list fdiff) (l2 : list fdiff2) : option changes :=
+    match foldo (build1_legacy2 revert) l1 no_changes with
+    | Some ch => foldo (build2 revert) l2 ch
+    | None => None
+    end.
+  Definition legacy2_refuted (l1 : list fdiff) (l2 : list fdiff2) : Prop :=
+    exists (buffer : N) (s : state) (K : list block) (i : idx) (ch : changes) (s' : state),
+      J buffer s K /\ bvalid buffer (negof1 s) (negof2 s) K (block_of_diffs i l1 l2) /\
+      build_state_legacy2 false l1 l2 = Some ch /\
+      exec (Chain [] [(i, ch, rej_arg buffer (fst i))]) s = ROk s' /\
+      ~ agrees_with_chain buffer s' (block_of_diffs i l1 l2 :: K).
+
+  (* formation and storage proof in one block: the proof is lost, the contract stays active *)
+  Lemma legacy_formation_and_resolution_refuted :
+    legacy2_refuted [mkFD 1 true true 0 None true true false] [].
+  Proof.
+    exists 2, (exec_plain (AddV1 1 0 10 1 uzero) init), [], (1, 1). do 2 eexists.
+    split; [apply (blank_after_plain 2 [AddV1 1 0 10 1 uzero]); reflexivity|].
+    split; [apply bvalidb_sound; vm_compute; reflexivity|].
+    split; [vm_compute; reflexivity|].
+    split; [vm_compute; reflexivity|].
+    intros [H _]. specialize (H 1 _ eq_refl). vm_compute in H. destruct H as (_ & _ & H & _). discriminate.
+  Qed.
+End Legacy2.
